@@ -16,16 +16,18 @@ structure Fld (α : Type) where
   F : FieldOps α
   parse : Arg → Option (List α)
   fmt : List α → String
+  /-- relative cost of one field multiplication in the executable model (work estimates) -/
+  cost : Nat
 
-def fb : Fld Nat := ⟨bfieldOps, fun a => a.natList?.map (fun l => l.map (· % P)), fmtList⟩
+def fb : Fld Nat := ⟨bfieldOps, fun a => a.natList?.map (fun l => l.map (· % P)), fmtList, 1⟩
 def fx : Fld Spec.X3 :=
-  ⟨xfieldOps, fun a => a.tripleList?.map (fun l => l.map (fun t => (t.1 % P, t.2.1 % P, t.2.2 % P))), fmtTripleList⟩
+  ⟨xfieldOps, fun a => a.tripleList?.map (fun l => l.map (fun t => (t.1 % P, t.2.1 % P, t.2.2 % P))), fmtTripleList, 6⟩
 
 /-- the literal `4` in `fast_reduce` (`intermediate_remainder.degree() > 4 * modulus.degree()`) -/
 def STAGE2_MULTIPLE : Nat := 4
 
 /-- model work limit (coefficient products); above it the model answers `skip` -/
-def WORK_LIMIT : Nat := 40000000
+def WORK_LIMIT : Nat := 6000000
 
 /-- largest final NTT domain of `formal_power_series_inverse_newton` the model executes -/
 def FPS_DOMAIN_LIMIT : Nat := 32768
@@ -43,48 +45,48 @@ def generic (X : Fld α) (op : String) (args : List Arg) : Option String :=
   match op, args with
   | "divide", [a, d] | "naive_divide", [a, d] => do
       let a ← X.parse a; let d ← X.parse d
-      if a.length * d.length > WORK_LIMIT then pure "skip" else
+      if a.length * d.length * X.cost > WORK_LIMIT then pure "skip" else
       pure (reply ((naiveDivide F a d).map fun (q, r) => okPs X [q, r]))
   | "div", [a, d] => do
       let a ← X.parse a; let d ← X.parse d
-      if a.length * d.length > WORK_LIMIT then pure "skip" else
+      if a.length * d.length * X.cost > WORK_LIMIT then pure "skip" else
       pure (reply ((div F a d).map (okP X)))
   | "rem", [a, d] => do
       let a ← X.parse a; let d ← X.parse d
-      if a.length * d.length > WORK_LIMIT then pure "skip" else
+      if a.length * d.length * X.cost > WORK_LIMIT then pure "skip" else
       pure (reply ((rem F a d).map (okP X)))
   | "reduce", [a, m] => do
       let a ← X.parse a; let m ← X.parse m
-      if a.length * m.length > WORK_LIMIT then pure "skip" else
+      if a.length * m.length * X.cost > WORK_LIMIT then pure "skip" else
       pure (reply ((reduce F N FAST_REDUCE_MAKES_SENSE_MULTIPLE FAST_REDUCE_CUTOFF_THRESHOLD STAGE2_MULTIPLE a m).map (okP X)))
   | "fast_reduce", [a, m] => do
       let a ← X.parse a; let m ← X.parse m
-      if a.length * m.length > WORK_LIMIT then pure "skip" else
+      if a.length * m.length * X.cost > WORK_LIMIT then pure "skip" else
       pure (reply ((fastReduce F N FAST_REDUCE_CUTOFF_THRESHOLD STAGE2_MULTIPLE a m).map (okP X)))
   | "shift_factor", [m] => do
       let m ← X.parse m
-      if m.length * m.length > WORK_LIMIT then pure "skip" else
+      if m.length * m.length * X.cost > WORK_LIMIT then pure "skip" else
       pure (reply ((shiftFactorNtt F N FAST_REDUCE_CUTOFF_THRESHOLD m).map fun (v, t) => s!"ok:{X.fmt v};{t}"))
   | "reduce_ntt", [a, m] => do
       let a ← X.parse a; let m ← X.parse m
-      if a.length * m.length > WORK_LIMIT then pure "skip" else
+      if a.length * m.length * X.cost > WORK_LIMIT then pure "skip" else
       pure (reply (do
         let (v, t) ← shiftFactorNtt F N FAST_REDUCE_CUTOFF_THRESHOLD m
         let r ← reduceByNttFriendlyModulus F N a v t
         pure (okP X r)))
   | "struct_mult", [p, .nat n] => do
       let p ← X.parse p
-      if n * n > WORK_LIMIT then pure "skip" else
+      if n * n * X.cost > WORK_LIMIT then pure "skip" else
       pure (reply ((structuredMultipleOfDegree F p n).map (okP X)))
   | "xgcd", [x, y] => do
       let x ← X.parse x; let y ← X.parse y
-      if (x.length + y.length) * (x.length + y.length) > WORK_LIMIT then pure "skip" else
+      if (x.length + y.length) * (x.length + y.length) * X.cost > WORK_LIMIT then pure "skip" else
       pure (reply ((xgcd F x y).map fun (g, a, b) => okPs X [g, a, b]))
   | "fps_newton", [p, .nat n] => do
       let p ← X.parse p
       -- the final NTT domain of the Newton iteration; the model skips above `FPS_DOMAIN_LIMIT`
       let full := nextPowerOfTwo (2 ^ (Nat.log2 (nextPowerOfTwo n) + 1) * (degree F p).toNat)
-      if full > FPS_DOMAIN_LIMIT then pure "skip" else
+      if full * X.cost > FPS_DOMAIN_LIMIT then pure "skip" else
       pure (reply ((fpsInverseNewton F N FORMAL_POWER_SERIES_INVERSE_CUTOFF p n).map fun g => okP X (modXToTheN g n)))
   | "mod_x_n", [p, .nat n] => do
       let p ← X.parse p
